@@ -22,8 +22,10 @@
      ProofsMulti3  ReadAll's fold over a chain of segments with their heads = effect over the logical records
      ProofsMulti4  end to end for any number of segments (zero snapshot): Open selects all files, Repair on the
                    lone tail, crash cut behind the tail's sync point -> error or effect(prefix >= synced)
+     ProofsMulti5  the same at ANY snapshot: Open's selection from the names, entries in front of the selected
+                   files are at or below the snapshot, the first selected head restores crc and hard state
      ProofsRefute  witnesses against the full statement (Spec.C05_full) *)
 From ZV Require Export Wal.ProofsCrc Wal.ProofsProto Wal.ProofsFrame Wal.ProofsDecode Wal.ProofsTorn
   Wal.ProofsPrefix Wal.ProofsRepair Wal.ProofsWriter Wal.ProofsNames Wal.ProofsSegs Wal.ProofsSector Wal.ProofsFlip Wal.ProofsLog Wal.ProofsRefute
   Wal.ProofsReadAll Wal.ProofsEffect Wal.ProofsHistory Wal.ProofsAppend Wal.ProofsCapstone
-  Wal.ProofsMulti1 Wal.ProofsMulti2 Wal.ProofsMulti3 Wal.ProofsMulti4.
+  Wal.ProofsMulti1 Wal.ProofsMulti2 Wal.ProofsMulti3 Wal.ProofsMulti4 Wal.ProofsMulti5.
